@@ -89,9 +89,9 @@ static std::string frags_plants(std::initializer_list<const char*> names) {
   std::string p; for (const char* n : names) { p += unescape(FRAGS[frag_index(n)].plant); p += " .. "; } return p;
 }
 
-#define STR_FRAGS {"text", "wide", "widescii", "nocase", "xor", "base64", "fullword", "privstr", "hexjump", "hexchain", "hexalt", "hexneg"}
+#define STR_FRAGS {"text", "wide", "widescii", "nocase", "xor", "base64", "fullword", "privstr", "hexjump", "hexchain", "hexalt", "hexneg", "widenocase", "xorwide", "fullwide"}
 #define RE_FRAGS {"regreedy", "relazy", "rewide", "realt", "matches", "strops"}
-#define COND_FRAGS {"count", "atzero", "inrange", "ofset", "allof", "noneof", "forof", "forin", "forrange", "nested", "filesize", "entryp", "uints", "notstr", "zerocount", "arith"}
+#define COND_FRAGS {"count", "atzero", "inrange", "ofset", "allof", "noneof", "forof", "forin", "forrange", "nested", "filesize", "entryp", "uints", "notstr", "zerocount", "arith", "countin", "ofin", "ofat", "pctof", "forofat", "intenum", "bitops", "dblops", "strcmp", "uintsmore", "definedop"}
 
 static const char* PE_TINY = "tiny";
 static const char* PE_SIGNED = "079a472d22290a94ebb212aa8015cdc8dd28a968c6b4d3b88acdd58ce2d3b885";
@@ -103,7 +103,12 @@ static const char* DEX_S = "../oss-fuzz/dex_fuzzer_corpus/b1203d95c56f02e7e6dbea
 typedef void (*ScenFn)(Sc&);
 struct Scenario { const char* name; ScenFn fn; };
 
-static void compile_only(Sc& s, const std::string& src) { s.arm(); if (!sc_init(s)) return; sc_compile(s, src); }
+// a compilation that "succeeds" around a failed allocation must have produced the same rules: their serialised image
+// (a pure function of the rules, C08) is part of the step outputs compared with the fault-free run
+static void compile_only(Sc& s, const std::string& src) {
+  s.arm(); if (!sc_init(s)) return; YR_RULES* r = sc_compile(s, src); if (!r) return;
+  MemStream ms; YR_STREAM st = ms.stream(); STO(s, "yr_rules_save_stream", yr_rules_save_stream(r, &st), ms.data);
+}
 static void scan_only(Sc& s, const std::string& src, const std::string& buf) {
   if (!sc_init(s)) return; YR_RULES* r = sc_compile(s, src); if (!r) return;
   s.arm(); sc_scan_mem(s, r, buf);
@@ -113,6 +118,11 @@ static void s_init_fini(Sc& s) { s.arm(); sc_init(s); }
 static void s_compile_strings(Sc& s) { compile_only(s, frags_src(STR_FRAGS)); }
 static void s_compile_regex(Sc& s) { compile_only(s, frags_src(RE_FRAGS)); }
 static void s_compile_cond(Sc& s) { compile_only(s, frags_src(COND_FRAGS)); }
+// the same compilations with arena buffers that start at 64 bytes: every few writes into a section grow it, so the
+// growth reallocs of all twelve sections (and every caller that must notice their failure) become fault sites
+static void s_compile_strings_tiny(Sc& s) { g_arena_initial_size = 64; compile_only(s, frags_src(STR_FRAGS)); g_arena_initial_size = 0; }
+static void s_compile_regex_tiny(Sc& s) { g_arena_initial_size = 64; compile_only(s, frags_src(RE_FRAGS)); g_arena_initial_size = 0; }
+static void s_compile_cond_tiny(Sc& s) { g_arena_initial_size = 64; compile_only(s, frags_src(COND_FRAGS)); g_arena_initial_size = 0; }
 static void s_compile_pe(Sc& s) { compile_only(s, frags_src({"pe", "pefunc", "pesig", "perich"})); }
 static void s_compile_elf(Sc& s) { compile_only(s, frags_src({"elf", "elfsec"})); }
 static void s_compile_dotnet(Sc& s) { compile_only(s, frags_src({"dotnet"})); }
@@ -299,7 +309,7 @@ static void s_stats_profiling(Sc& s) {
 }
 
 static const Scenario SCENARIOS[] = {
-  {"init_fini", s_init_fini}, {"compile_strings", s_compile_strings}, {"compile_regex", s_compile_regex}, {"compile_cond", s_compile_cond},
+  {"init_fini", s_init_fini}, {"compile_strings", s_compile_strings}, {"compile_regex", s_compile_regex}, {"compile_cond", s_compile_cond}, {"compile_strings_tiny_arena", s_compile_strings_tiny}, {"compile_regex_tiny_arena", s_compile_regex_tiny}, {"compile_cond_tiny_arena", s_compile_cond_tiny},
   {"compile_pe", s_compile_pe}, {"compile_elf", s_compile_elf}, {"compile_dotnet", s_compile_dotnet}, {"compile_macho", s_compile_macho},
   {"compile_dex", s_compile_dex}, {"compile_small_mods", s_compile_small_mods}, {"compile_error", s_compile_error},
   {"compile_namespaces", s_compile_namespaces}, {"compile_include", s_compile_include}, {"externals", s_externals},
